@@ -60,7 +60,7 @@ def jref (mm : MMX) (o : Opts) (render : Path → Str) (roots : List (SNode Path
   ⟨match nodeAt roots p with | some n => mm.cname n.cls | Option.none => [], tokenOf mm o render roots p⟩
 
 /-- **Document level, JSON.**  Saving a forest of well-formed objects whose references point into the forest and
-    loading the values again gives every root's normal form (without uuids: `to_obj` does not hand them to the objects)
+    loading the values again gives every root's normal form (uuids included)
     with every reference on its original target, provided each token resolves in the loaded forest to the path it was
     written for. -/
 theorem jdoc_roundtrip (mm : MMX) (o : Opts) (hmm : MMJ mm) (render : Path → Str) (parse : Str → Option Path)
@@ -70,7 +70,7 @@ theorem jdoc_roundtrip (mm : MMX) (o : Opts) (hmm : MMJ mm) (render : Path → S
     (hres : ∀ r ∈ roots, AllRefs (fun p =>
         resolveTok mm o parse (roots.map fun r => eff mm o true (mapT (tokenOf mm o render roots) r))
           (tokenOf mm o render roots p) = some p) r) :
-    (jEncodeDoc mm o render roots).bind (jDecodeDoc mm o parse) = some (stripUuidL (roots.map (eff mm o true))) := by
+    (jEncodeDoc mm o render roots).bind (jDecodeDoc mm o parse) = some (roots.map (eff mm o true)) := by
   unfold jEncodeDoc
   have henc : mapRefsL (jrefOf mm o render roots) roots = some (mapTL (jref mm o render roots) roots) := by
     apply mapRefsL_some
@@ -114,7 +114,6 @@ theorem jdoc_roundtrip (mm : MMX) (o : Opts) (hmm : MMJ mm) (render : Path → S
     rw [hE] at this
     exact this
   rw [hback]
-  rfl
 
 end JDoc
 
@@ -128,7 +127,7 @@ theorem jdoc_roundtrip_fragment (mm : MMX) (o : Opts) (hmm : MMJ mm) (single : B
     (hwf : ∀ r ∈ roots, WFG mm (fun _ => True) r)
     (hrefs : ∀ r ∈ roots, AllRefs (fun p => (nodeAt roots p).isSome = true ∧ (∀ s ∈ p.segs, NameOK s.1 ∧ '#' ∉ s.1)) r) :
     (jEncodeDoc mm o (renderPath single) roots).bind (jDecodeDoc mm o parsePath)
-      = some (stripUuidL (roots.map (eff mm o true))) := by
+      = some (roots.map (eff mm o true)) := by
   have htok : tokenOf mm o (renderPath single) roots = renderPath single := by
     funext p; exact tokenOf_fragment mm o (renderPath single) roots p hu hid
   apply jdoc_roundtrip mm o hmm (renderPath single) parsePath roots hwf
@@ -162,7 +161,7 @@ theorem jdoc_roundtrip_uuid (mm : MMX) (o : Opts) (hmm : MMJ mm) (render : Path 
     (hrefs : ∀ r ∈ roots, AllRefs (fun p => ∃ n, (p, n) ∈ allNodes mm roots) r)
     (htok : ∀ q m, (q, m) ∈ allNodes mm roots → UuidTok m.uuid)
     (hdist : ∀ q m q' m', (q, m) ∈ allNodes mm roots → (q', m') ∈ allNodes mm roots → m.uuid = m'.uuid → q = q') :
-    (jEncodeDoc mm o render roots).bind (jDecodeDoc mm o parse) = some (stripUuidL (roots.map (eff mm o true))) := by
+    (jEncodeDoc mm o render roots).bind (jDecodeDoc mm o parse) = some (roots.map (eff mm o true)) := by
   apply jdoc_roundtrip mm o hmm render parse roots hwf
   · intro r hr
     apply AllRefs_mono _ _ _ r (hrefs r hr)
@@ -191,7 +190,7 @@ theorem jdoc_roundtrip_addr (mm : MMX) (o : Opts) (hmm : MMJ mm) (hid : IdOK mm)
     (hdist : ∀ q m q' m' k, (q, m) ∈ allNodes mm roots → (q', m') ∈ allNodes mm roots →
       k ∈ keysOf mm o m → k ∈ keysOf mm o m' → q = q') :
     (jEncodeDoc mm o (renderPath single) roots).bind (jDecodeDoc mm o parsePath)
-      = some (stripUuidL (roots.map (eff mm o true))) := by
+      = some (roots.map (eff mm o true)) := by
   have key := token_resolves mm o hmm.toMMOK hid single roots hsingle hwf huuid hdist
   apply jdoc_roundtrip mm o hmm (renderPath single) parsePath roots hwf
   · intro r hr
